@@ -59,6 +59,36 @@ class _Conn(object):
         self.peer_closed = False
         self.closed = False
         self.read_requests = []   # (asked, returned) for serial-style reads
+        self.txbuf = b''          # bytes written that do not make up a whole frame yet (a client may write a frame in pieces)
+
+    def _tx(self, data, stream=True):
+        """Hand what the client wrote to the peer one whole frame at a time: a stream client may send a frame in several
+        pieces (header, then body); the peer reacts when the frame is complete.  Bytes that are still no frame when the client
+        turns to reading are handed over as they are (the peer then reports them as a malformed request)."""
+        w = self.world
+        framing = getattr(w.peer, 'framing', None)
+        if not stream or framing is None:
+            return self._tx_deliver(data)
+        from vlib import refframe
+        self.txbuf += data
+        try:
+            refframe.parse_one(framing, self.txbuf)
+        except refframe.FrameError:
+            if len(self.txbuf) < 600:
+                return            # may be the first part of a frame
+        whole, self.txbuf = self.txbuf, b''
+        return self._tx_deliver(whole)
+
+    def _tx_deliver(self, data):
+        w = self.world
+        items = w.peer.on_write(self, data)     # may raise OSError
+        w.peer.written.append(data)
+        self.feed(items or [])
+
+    def _tx_flush(self):
+        if self.txbuf:
+            whole, self.txbuf = self.txbuf, b''
+            self._tx_deliver(whole)
 
     def _pump(self):
         now = self.world.clock.t
@@ -89,6 +119,7 @@ class _Conn(object):
         """advance virtual time until data is readable or timeout elapses; True if readable"""
         w = self.world
         w.step()
+        self._tx_flush()
         self._pump()
         if self.rx or self.peer_closed or getattr(w.peer, 'read_error', False):
             w.clock.t += 1e-3
@@ -131,9 +162,7 @@ class FakeSocket(_Conn):
             raise OSError(9, 'Bad file descriptor')
         data = bytes(data)
         w.log.append(('send', w.current(), data))
-        items = w.peer.on_write(self, data)     # may raise OSError
-        w.peer.written.append(data)
-        self.feed(items or [])
+        self._tx(data, stream=(self.kind != 'udp'))
         return len(data)
 
     def sendto(self, data, addr):
@@ -145,6 +174,7 @@ class FakeSocket(_Conn):
         w.yield_point('recv')
         if self.closed:
             raise OSError(9, 'Bad file descriptor')
+        self._tx_flush()
         err = w.peer.on_read_error(self)
         if err is not None:
             raise err
@@ -191,15 +221,14 @@ class FakeSerial(_Conn):
         w.log.append(('send', w.current(), data))
         if w.local_echo:
             self.feed([(0.0, data)])
-        items = w.peer.on_write(self, data)
-        w.peer.written.append(data)
-        self.feed(items or [])
+        self._tx(data)
         return len(data)
 
     def read(self, size=1):
         w = self.world
         w.step()
         w.yield_point('recv')
+        self._tx_flush()
         err = w.peer.on_read_error(self)
         if err is not None:
             raise err
